@@ -439,7 +439,7 @@ def judge_builder(ctx, rng, nleaves, which):
 
 def run_shard(spec, ctx):
     i, of = spec['shard'], spec['of']
-    maxleaves = 6 if ctx.tier == 'quick' else 9
+    maxleaves = 6 if ctx.tier == 'quick' else 10
     saved = install_tracer()
     try:
         idx = 0
@@ -454,7 +454,7 @@ def run_shard(spec, ctx):
                     ctx.sample({'shape': repr(shape), 'leaves': n})
         ctx.exhaustive(f'all binary tree shapes with 2..{maxleaves} leaves, '
                        'every leaf')
-        reps = 1 if ctx.tier == 'quick' else 6
+        reps = 1 if ctx.tier == 'quick' else 60
         for n in range(1, 25):
             for which in ('prioritized', 'balanced'):
                 for r in range(reps):
